@@ -13,7 +13,9 @@ from vlib.common import Run, rng_for
 PROP = "C13"
 RULE = ("case = (threads 1-3, worker_connections 1-5 incl. <= threads, keepalive 0-2, 1-2 listeners, history of 4-40 scheduler steps "
         "from {client connects, sends a keep-alive / close / gated / malformed request or half of one, handler released, virtual time "
-        "advances 0.3-3 s, client disconnects, stop}); short histories enumerated for the smallest configuration; distinct = sha1(case); "
+        "advances 0.3-3 s, client disconnects, stop}); two directed families: idle keep-alive connections queued one behind the other of which "
+        "a younger one becomes busy and idle again before all expire, and events on idle connections timed around their keep-alive "
+        "deadline within one polling round; short histories enumerated for the smallest configuration; distinct = sha1(case); "
         "non-trivial = >= 2 connections")
 
 
@@ -85,6 +87,113 @@ def make_case(rng):
     nl = rng.choice([1, 1, 2])
     polite = rng.random() < 0.75
     return {"cfg": cfg, "listeners": nl, "polite": polite, "history": gen_history(rng, cfg, nl, polite)}
+
+
+def make_requeue_case(rng):
+    """Several keep-alive connections idle one behind the other; connections that are NOT the oldest idle one become busy again
+    (another request on the same connection) while the older ones have not expired, and are parked again; then everything idles
+    out.  Afterwards new clients come (never more than worker_connections - 1, where the loop keeps polling)."""
+    threads = rng.randint(1, 3)
+    ka = rng.choice([1, 2, 2, 3])
+    cfg = {"threads": threads, "worker_connections": threads + rng.choice([2, 3, 3, 4, 5]), "keepalive": ka}
+    if rng.random() < 0.3:
+        cfg["_lock_delay"] = rng.choice([0.3, 0.6, 1.0])
+        cfg["_lock_seed"] = rng.randrange(1 << 30)
+    share = cfg["worker_connections"] - threads
+    m = rng.randint(2, min(4, share))
+    steps = []
+    t = 0.0
+    budget = ka - 0.15                        # everything below happens before the oldest idle connection expires
+    for cid in range(m):
+        steps += [("connect", cid, 0), ("send", cid, "ka")]
+        if rng.random() < 0.6:
+            dt = rng.choice([0.05, 0.1, 0.2])
+            if t + dt < budget:
+                steps.append(("time", dt))
+                t += dt
+    for _ in range(rng.randint(1, 3)):
+        cid = rng.randrange(1, m) if rng.random() < 0.85 else 0
+        dt = rng.choice([0.05, 0.1, 0.2, 0.3])
+        if t + dt < budget:
+            steps.append(("time", dt))
+            t += dt
+        steps.append(("send", cid, rng.choice(["ka", "ka", "ka", "gated"])))
+        if steps[-1][2] == "gated":
+            steps += [("time", 0.05), ("release", cid)]
+            t += 0.05
+    # idle out
+    left = ka + rng.choice([1.2, 2.0, 3.0])
+    while left > 0:
+        dt = rng.choice([0.5, 0.7, 1.0])
+        steps.append(("time", dt))
+        left -= dt
+    # the next clients
+    for cid in range(m, m + rng.randint(0, cfg["worker_connections"] - 1)):
+        steps += [("connect", cid, 0), ("send", cid, rng.choice(["ka", "close", "ka"]))]
+        if rng.random() < 0.3:
+            steps.append(("time", 0.3))
+    return {"cfg": cfg, "listeners": 1, "polite": True, "family": "requeue", "history": [list(x) for x in steps]}
+
+
+def make_expiry_race_case(rng):
+    """Something happens on an idle keep-alive connection - request bytes (good, malformed, half a request) or the client leaving -
+    around the moment its keep-alive time runs out: slightly before, or after it but in the same select() round, i.e. before the
+    loop has reaped the connection.  An unrelated event in between shifts the loop's one-second polling rounds against the
+    keep-alive deadlines, otherwise a deadline and the end of a round coincide."""
+    threads = rng.randint(1, 3)
+    ka = rng.choice([1, 1, 2])
+    cfg = {"threads": threads, "worker_connections": threads + rng.choice([1, 2, 3, 4]), "keepalive": ka}
+    if rng.random() < 0.25:
+        cfg["_lock_delay"] = rng.choice([0.3, 0.6])
+        cfg["_lock_seed"] = rng.randrange(1 << 30)
+    share = cfg["worker_connections"] - threads
+    m = rng.randint(1, min(3, share))
+    steps = []
+    t = 0.0
+    parked = {}
+    for cid in range(m):
+        steps += [("connect", cid, 0), ("send", cid, "ka")]
+        parked[cid] = t
+        if cid < m - 1 and rng.random() < 0.5:
+            dt = rng.choice([0.05, 0.1, 0.2])
+            steps.append(("time", dt))
+            t += dt
+    # the unrelated event: d seconds after the last connection went idle (a client that is served and leaves, or a connection
+    # that another worker process wins)
+    d = rng.choice([0.2, 0.35, 0.5, 0.65, 0.8])
+    steps.append(("time", d))
+    t += d
+    if rng.random() < 0.6 and m + 1 < cfg["worker_connections"]:
+        steps += [("connect", m, 0), ("send", m, "close")]
+    else:
+        steps.append(("phantom", 0))
+    t_wake = t
+    # events on the idle connections, relative to their deadlines; the current polling round ends at t_wake + ka
+    evs = []
+    for cid in range(m):
+        if cid and rng.random() < 0.3:
+            continue
+        deadline = parked[cid] + ka
+        round_end = t_wake + ka
+        u = rng.random()
+        if u < 0.7:
+            at = deadline + rng.random() * max(0.01, round_end - deadline - 0.02) + 0.01       # past the deadline, same round
+        elif u < 0.85:
+            at = deadline - rng.choice([0.02, 0.1, 0.2])                                      # just before the deadline
+        else:
+            at = round_end + rng.choice([0.05, 0.3])                                          # after the loop had its chance to reap
+        evs.append((round(at, 3), cid))
+    evs.sort()
+    for at, cid in evs:
+        if at > t + 1e-9:
+            steps.append(("time", round(at - t, 3)))
+            t = at
+        what = rng.choice(["ka", "ka", "bad", "half", "close", "boom", "disconnect", "disconnect"])
+        steps.append(("disconnect", cid) if what == "disconnect" else ("send", cid, what))
+    steps.append(("time", rng.choice([0.3, 1.0, 2.5])))
+    for cid in range(m + 1, m + 1 + rng.randint(0, 2)):
+        steps += [("connect", cid, 0), ("send", cid, rng.choice(["ka", "close"]))]
+    return {"cfg": cfg, "listeners": 1, "polite": True, "family": "expiry-race", "history": [list(x) for x in steps]}
 
 
 def run_case(run, e5, case):
@@ -176,6 +285,22 @@ def shard(sh):
             if i < 1:
                 run.sample({"cfg": case["cfg"], "listeners": case["listeners"], "history": case["history"][:12],
                             "log_tail": [list(map(str, e)) for e in k.log[-6:]]})
+        # directed families (own random streams: the general histories above stay what they were)
+        for fam, maker in (("requeue", make_requeue_case), ("expiry-race", make_expiry_race_case)):
+            rng = rng_for(sh["seed"], "c13-" + fam, sh["sub"])
+            for i in range(max(1, sh["n"] // 12)):
+                if run.enough():
+                    break
+                case = maker(rng)
+                v, reason, k = run_case(run, e5, case)
+                run.case(common.sha12(case), nontrivial=True)
+                run.count("histories/" + fam)
+                if reason:
+                    run.inconclusive_because(reason)
+                for mech, summary in v:
+                    run.violation(mech, summary + " | cfg=%s family=%s" % (case["cfg"], fam), case)
+                if i < 1 and sh["sub"] == 0:
+                    run.sample({"family": fam, "cfg": case["cfg"], "history": case["history"][:16]})
     else:
         hs = enum_histories(sh["maxlen"])
         cfg = {"threads": 1, "worker_connections": 2, "keepalive": 1}
@@ -198,7 +323,11 @@ def main(tier, seed):
     run.require("histories", "enumerated_histories", "selects", "accepted_connections", "handler_finished_keepalive",
                 "handler_finished_close", "keepalive_expiries_observed", "histories_reaching_capacity", "drain_checks",
                 "pool_thread_lock_delays", "accept_eagain_after_readable", "keepalive_share_checks", "keepalive_grant_checks",
-                "aux_nr_conns_agrees")
+                "aux_nr_conns_agrees", "drain_count_checks",
+                # a connection idle behind an older idle one became busy, was parked again and was reaped when it idled out
+                "reparked_behind_older_idle", "reparked_behind_older_idle_then_reaped",
+                # request bytes / a disconnect on an idle connection handed to the loop after its keep-alive time, before the reaper ran
+                "event_on_idle_connection_past_keepalive_time/bytes", "event_on_idle_connection_past_keepalive_time/disconnect")
     q = tier == "quick"
     shards = [{"kind": "random", "n": 1500 if q else 20000, "sub": i, "seed": seed, "tier": tier} for i in range(16 if q else 32)]
     shards += [{"kind": "enum", "maxlen": 5 if q else 6, "sub": i, "of": 16, "seed": seed, "tier": tier} for i in range(16)]
@@ -208,6 +337,8 @@ def main(tier, seed):
         "'eventually closed' and 'keeps serving' are judged as bounded progress: 3 loop iterations to dispatch, keepalive + 2.5 s to reap, "
         "keepalive + 4 s after the last client left to be empty",
         "connections still open when run() returns after a stop request are closed by process exit (counted, not judged)",
+        "the worker's own count of open connections (nr_conns, what it compares with worker_connections before accepting) is read at "
+        "points where no handler thread is running and must equal the number of connections the scripted sockets show as open",
     ]
     from checks import c13_live
     live = c13_live.plan(run, tier, seed)
